@@ -809,7 +809,7 @@ class SshHostCertificateV00Base(ParsableBase, SshCertificateBase):  # pylint: di
         parser.parse_parsable('constraints', SshCertConstraintVector)
         parser.parse_bytes('nonce', 4)
         parser.parse_bytes('reserved', 4)
-        parser.parse_parsable('signature_key', SshHostPublicKeyVariant, 4)
+        parser.parse_parsable('signature_key', SshCertificateAuthorityKeyVariant, 4)
         parser.parse_parsable('signature', SshCertSignature, 4)
 
     def _compose_host_cert_params(self, composer):
@@ -980,7 +980,7 @@ class SshHostCertificateV01Base(ParsableBase, SshCertificateBase):  # pylint: di
         parser.parse_parsable('critical_options', SshCertCriticalOptionVector)
         parser.parse_parsable('extensions', SshCertExtensionVector)
         parser.parse_bytes('reserved', 4)
-        parser.parse_parsable('signature_key', SshHostPublicKeyVariant, 4)
+        parser.parse_parsable('signature_key', SshCertificateAuthorityKeyVariant, 4)
         parser.parse_parsable('signature', SshCertSignature, 4)
 
     def _compose_host_cert_params(self, composer):
@@ -1228,6 +1228,26 @@ class SshHostPublicKeyVariant(VariantParsable):
             SshHostCertificateV01RSA,
             SshX509Certificate,
             SshX509CertificateChain,
+        ]
+    ]))
+
+    @classmethod
+    def _get_variants(cls):
+        return cls._VARIANTS
+
+
+class SshCertificateAuthorityKeyVariant(VariantParsable):
+    # chained certificates, where the signature key is a certificate itself, are not supported (PROTOCOL.certkeys)
+    _VARIANTS = collections.OrderedDict(itertools.chain.from_iterable([
+        [
+            (host_key_algorithm, (ssh_key_class, ))
+            for host_key_algorithm in ssh_key_class.get_host_key_algorithms()
+        ]
+        for ssh_key_class in [
+            SshHostKeyDSS,
+            SshHostKeyECDSA,
+            SshHostKeyEDDSA,
+            SshHostKeyRSA,
         ]
     ]))
 
